@@ -196,8 +196,71 @@ def _signed_tbb(maxc):
                 trusted=["cbmc 6.11 SAT back end; goto-instrument DFCC for the replaced call"])
 
 
+def _lc_variant(spec, maxc, scan_loop=True, tbb=False):
+    """Loop-contract variant of a K16 unit: the same extracted text, the loops closed by contracts whose invariants are quantified over
+    the bounded cycle-space dimension; the triangular-incidence clauses become the postcondition of the main loop function."""
+    from units.k17b_bfs import _fresh
+    txt = spec["text"]
+    a = txt.index("void mainloop(void) {")
+    b = txt.index("size_t vp_in_csd;")
+    body = txt[a + len("void mainloop(void) {"):txt.rindex("}", a, b)]
+    sumpw = lambda lim: "(" + " + ".join("((%d < (%s)) ? PW[%d] : 0)" % (i, lim, i) for i in range(maxc)) + ")"
+    tri = ("ALLC(qj, qj < k ==> (PAR(WIT[qj] & EMITTED[qj]) == 1 && ALLC2(qi, qi < qj ==> PAR(WIT[qj] & EMITTED[qi]) == 0)))")
+    orth = "ALLC(ql, (ql >= %s && ql < csd) ==> ALLC2(qe, qe < k ==> PAR(support[ql] & EMITTED[qe]) == 0))"
+    inv_init = "__CPROVER_assigns(k, __CPROVER_object_whole(support))\n__CPROVER_loop_invariant(k <= csd && ALLC(qa, qa < k ==> support[qa] == (1UL << qa)))\n__CPROVER_decreases(csd - k)"
+    inv_main = ("__CPROVER_assigns(k, vp_emitted, mcb_weight, __CPROVER_object_whole(support), __CPROVER_object_whole(EMITTED), __CPROVER_object_whole(WIT))\n"
+                "__CPROVER_loop_invariant(k <= csd && vp_emitted == k && mcb_weight == SUMPW(k) && %s && %s)\n__CPROVER_decreases(csd - k)" % (tri, orth % "k"))
+    inv_scan = "__CPROVER_assigns(r, min_support)\n__CPROVER_loop_invariant(k + 1 <= r && r <= csd && k <= min_support && min_support < csd)\n__CPROVER_decreases(csd - r)"
+    inv_upd = ("__CPROVER_assigns(l, __CPROVER_object_whole(support))\n"
+               "__CPROVER_loop_invariant(k + 1 <= l && l <= csd && support[k] == WIT[k] && PAR(support[k] & cyclek) == 1 && ALLC2(qz, qz < k ==> PAR(support[k] & EMITTED[qz]) == 0)"
+               " && ALLC(qm, (qm > k && qm < l) ==> PAR(support[qm] & cyclek) == 0) && %s)\n__CPROVER_decreases(csd - l)" % (orth % "k + 1"))
+    if tbb:
+        # concurrent initialisation lowered to one task over the whole range (push position vp_pos), update lowered likewise (loop variable i, bound e)
+        inv_init = ("__CPROVER_assigns(i, vp_pos, __CPROVER_object_whole(support))\n__CPROVER_loop_invariant(vp_rb <= i && i <= vp_re && vp_re == csd && vp_rb == 0 && vp_pos == i)\n__CPROVER_decreases(vp_re - i)")
+        inv_upd = inv_upd.replace("__CPROVER_assigns(l,", "__CPROVER_assigns(i,").replace("k + 1 <= l && l <= csd", "k + 1 <= i && i <= csd && e == csd && vp_re == csd").replace("qm < l)", "qm < i)").replace("__CPROVER_decreases(csd - l)", "__CPROVER_decreases(csd - i)")
+    contracts = {0: inv_init, 1: inv_main, 2: inv_scan, 3: inv_upd} if scan_loop else {0: inv_init, 1: inv_main, 2: inv_upd}
+    log = list(spec.get("rewrites", []))
+    if len(X.loops(body)) != len(contracts):
+        raise Undecided("extraction out of date: main loop text has %d loops (%d expected)" % (len(X.loops(body)), len(contracts)))
+    body = X.splice_loop_contracts(body, contracts, log)
+    fn = r"""
+#define ALLC(c, body) __CPROVER_forall { size_t c; (c < MAXC) ==> (body) }
+#define ALLC2(c, body) __CPROVER_forall { size_t c; (c < MAXC) ==> (body) }
+#define SUMPW(lim) %(SUMPW)s
+void mainloop(void)
+__CPROVER_requires(csd <= MAXC && ALLC(rp, PW[rp] > 0 && PW[rp] < 1000000000L))
+__CPROVER_assigns(vp_emitted, mcb_weight, %(EXTRA)s__CPROVER_object_whole(support), __CPROVER_object_whole(EMITTED), __CPROVER_object_whole(WIT))
+/* exactly csd cycles; returned value = sum of the weights the phases reported */
+__CPROVER_ensures(vp_emitted == csd && mcb_weight == SUMPW(csd))
+/* unit lower-triangular incidence of witnesses and emitted cycles => the emitted cycles are linearly independent */
+__CPROVER_ensures(ALLC(pj, pj < csd ==> (PAR(WIT[pj] & EMITTED[pj]) == 1 && ALLC2(pi, pi < pj ==> PAR(WIT[pj] & EMITTED[pi]) == 0))))
+{%(BODY)s}
+size_t vp_in_csd;
+void h_main(void) {
+  vp_in_csd = csd;
+  mainloop();
+  __CPROVER_assert(0, "VP_REACH end of harness");
+}
+""" % dict(SUMPW=sumpw("lim"), BODY=body, EXTRA="vp_pos, " if tbb else "")
+    if tbb:
+        fn = fn.replace("__CPROVER_requires(csd <= MAXC && ", "__CPROVER_requires(csd <= MAXC && vp_pos == 0 && ALLC(rq, PERM[rq] < 64) && ")
+    out = dict(spec)
+    out.update(unit=spec["unit"] + "_lc", text=txt[:a] + _fresh(fn), enforce="mainloop", loop_contracts=True, mode="proof", unwind=20, split=8, timeout=2400,
+               flags=["--object-bits", "12"], rewrites=log,
+               bound="proved(csd<=%d): all loops closed by loop contracts with invariants quantified over the cycle-space dimension; 64-coordinate view" % maxc,
+               functions={k.replace("bounded", "proved").split("(")[0] + " (loop contracts)": "proved(csd<=%d)" % maxc for k in spec["functions"]})
+    return out
+
+
 def units(tier):
-    # the SAT instance grows quickly with csd (csd<=6: 23 s, csd<=7: > 400 s for the signed loop)
-    big = tier == "thorough"
-    return [X.guarded("K16_mainloop_signed", _signed, 6 if big else 5), X.guarded("K16_mainloop_trees", _trees, 7 if big else 5),
-            X.guarded("K16_mainloop_signed_tbb", _signed_tbb, 5 if big else 4)]
+    # loop-contract variants (quantified invariants): csd <= 8 in ~20 s, 10 in ~1 min, 12 in ~5 min, 16 does not finish in 25 min;
+    # the unwound variants (csd <= 5 / 4) remain as the bounded fallback that decides a failed loop obligation
+    mc = 10 if tier == "thorough" else 8
+    def mk(base_fn, fb_mc, **kw):
+        def build():
+            spec = _lc_variant(base_fn(mc), mc, **kw)
+            spec["fallback"] = lambda: base_fn(fb_mc)
+            return spec
+        return build
+    return [X.guarded("K16_mainloop_signed_lc", mk(_signed, 5)), X.guarded("K16_mainloop_trees_lc", mk(_trees, 5, scan_loop=False)),
+            X.guarded("K16_mainloop_signed_tbb_lc", mk(_signed_tbb, 4, tbb=True))]
